@@ -13,7 +13,7 @@ def run(ck):
         'read_exact/read_u8/.. either deliver all requested bytes or fail with UnexpectedEof; read_until/read_line return what is left at EOF (tokio contracts)',
     ]
     ck.out_of_scope += [
-        'segmentation-insensitivity of the SOCKS/HTTP handshakes themselves: they delegate every read to tokio read_exact/read_until over BufReader',
+        'segmentation-insensitivity of the SOCKS/HTTP handshakes themselves: they delegate every read to tokio read_exact/read_until over BufReader (truncation of an HTTP head IS decided)',
         'hand-over of left-over BufReader bytes to the tunnel (drain_buffers; C01)',
     ]
     codec.spec_read_head(ck)
@@ -25,4 +25,5 @@ def run(ck):
     codec.spec_socks_response_roundtrip(ck, 5)
     codec.spec_socks_response_roundtrip(ck, 4)
     replies.spec_frame_channel_handover(ck)
+    replies.spec_http_head_truncation(ck)
     ck.post_filter = lambda o: o.label.startswith('C12/') or o.status in ('undecided', 'vacuous', 'inconclusive')
